@@ -145,7 +145,7 @@ def c05(kind, version, routes, raw, obs, info=None):
 def c07(kind, version, routes, raw, obs, info=None):
     bad = []
     call = parse_call(raw)
-    if call is None or kind not in ("ok", "explicit", "raise-ocpp", "raise-other", "bad-res", "skip", "id", "corpus",
+    if call is None or kind not in ("ok", "ok-role-clash", "explicit", "raise-ocpp", "raise-other", "bad-res", "skip", "id", "corpus",
                                     "send-fails"):
         return bad
     uid, action, payload = call
